@@ -26,7 +26,7 @@ func TestMain(m *testing.M) { harness.Main(m, "C11") }
 type job struct {
 	src  []byte
 	ver  px.Ver
-	pipe int // bit set: 1 print, 2 dump, 4 traverse, 8 resolve, 16 format+print
+	pipe int  // bit set: 1 print, 2 dump, 4 traverse, 8 resolve, 16 format+print
 	nocb bool // parse without an error handler (conf.Config.ErrorHandlerFunc == nil)
 }
 
